@@ -156,6 +156,56 @@ def pipeline(d, src, sut, link=True):
     return res
 
 
+def corpus_cells(ck, tier, sut):
+    """the repository's own programs and every module of the Duden through the same stages (compiled where they lie, in a scratch copy of
+    their directory; the link stage is left out: it needs the C files and libraries kddp itself would add): accepted => IR, verified IR, objects"""
+    import shutil, corpus
+    items = [(i, d, m, True) for i, d, m in corpus.programs("kddp" if tier == "quick" else "all")]
+    dud = os.path.join(sut, "Duden")
+    for f in sorted(os.listdir(dud)):
+        if f.endswith(".ddp"):
+            items.append(("Duden/" + f[:-4], dud, f, False))
+    root = vlib.subdir("c02corpus")
+
+    def one(it):
+        i, d, m, _ = it
+        wd = os.path.join(root, i.replace("/", "_"))
+        shutil.copytree(d, wd) if not i.startswith("Duden/") else os.makedirs(wd, exist_ok=True)
+        src_dir = wd if not i.startswith("Duden/") else d
+        env = dict(os.environ, DDPPATH=sut)
+        res = dict(codegen="ok", verify="ok", object="ok", link="skipped", detail="")
+        kd = os.path.join(sut, "bin", "kddp")
+        ll = os.path.join(wd, "x.ll")
+        p = subprocess.run([kd, "kompiliere", m, "-o", ll, "-O", "0"], cwd=src_dir, env=env, stdout=subprocess.PIPE, stderr=subprocess.STDOUT, text=True, errors="replace", timeout=300)
+        if p.returncode != 0 or not os.path.exists(ll):
+            out = p.stdout
+            res["codegen"] = "ir-rejected" if "could not parse llvm ir" in out else ("rejected-by-frontend" if "Fehlerhafter Quellcode" in out else "internal")
+            res["verify"] = res["object"] = "skipped"
+            res["detail"] = out[-1200:]
+        else:
+            v = subprocess.run(["llvm-as-14", ll, "-o", "/dev/null"], cwd=wd, stdout=subprocess.PIPE, stderr=subprocess.STDOUT, text=True, errors="replace")
+            if v.returncode != 0:
+                res["verify"], res["detail"] = "rejected", v.stdout[-800:]
+            for o in ((1, 2) if tier == "quick" else (0, 1, 2)):
+                q = subprocess.run([kd, "kompiliere", m, "-o", os.path.join(wd, "x%d.o" % o), "-O", str(o)], cwd=src_dir, env=env, stdout=subprocess.PIPE, stderr=subprocess.STDOUT, text=True, errors="replace", timeout=300)
+                if q.returncode != 0:
+                    res["object"] = "failed"
+                    res["detail"] += q.stdout[-800:]
+                    break
+        shutil.rmtree(wd, ignore_errors=True)
+        return it, res
+    with ThreadPoolExecutor(max_workers=14) as ex:
+        outs = list(ex.map(one, items))
+    recs, meta = [], []
+    for (i, d, m, _), r in outs:
+        if r["codegen"] == "rejected-by-frontend":
+            ck.cov.setdefault("corpus_rejected_by_frontend", []).append(i)      # e.g. Duden modules for another operating system
+            continue
+        recs.append(dict(e="cell", key="corpus:" + i, ctx="program", frontend="ok", codegen=r["codegen"], verify=r["verify"], object=r["object"], link="ok"))
+        meta.append((i, r))
+    return recs, meta
+
+
 def run(tier):
     ck = Check("C02", tier)
     rng = vlib.rng("c02")
@@ -246,6 +296,10 @@ def run(tier):
             continue
         recs.append(dict(e="cell", key=k, ctx=c, frontend="ok", codegen=r["codegen"], verify=r["verify"], object=r["object"], link=r["link"]))
         meta.append((k, c, r, src, it))
+    crecs, cmeta = corpus_cells(ck, tier, sut)
+    ncells = len(recs)
+    recs += crecs
+    ck.cov["corpus_programs_and_duden_modules"] = len(crecs)
     rej = len(cl) - len(accepted)
     orig = vlib.split_chunks
     try:
@@ -261,6 +315,11 @@ def run(tier):
     ck.cov["programs_compiled"] = nprog
     ck.cov["tlc_runs"].append(dict(name="PipelineTrace", lines=st["lines"], wall_s=round(st["wall"], 1)))
     for i in res["bad"]:
+        if i >= ncells:
+            name, r = cmeta[i - ncells]
+            stage = "codegen:" + r["codegen"] if r["codegen"] != "ok" else "verify" if r["verify"] != "ok" else "object"
+            ck.fail("C02:corpus:%s:%s" % (name, stage), "%s is accepted by the frontend but fails at %s: %s" % (name, stage, r["detail"][-500:]), dict(program=name, stage=stage, detail=r["detail"]))
+            continue
         k, c, r, src, it = meta[i]
         stage = "codegen:" + r["codegen"] if r["codegen"] != "ok" else "verify" if r["verify"] != "ok" else "object" if r["object"] != "ok" else "link"
         ck.fail("C02:%s:%s" % (k, stage), "cell %s (type %s) in context %s is accepted by the frontend but fails at %s: %s" % (k, it[2], c, stage, r["detail"][-400:]),
